@@ -3,6 +3,7 @@ package types
 import (
 	"cosmossdk.io/errors"
 	sdk "github.com/cosmos/cosmos-sdk/types"
+	"math"
 	"time"
 )
 
@@ -62,6 +63,9 @@ func ValidateCreateVestingAccount(fromAddress string, toAddress string, amount s
 	}
 	if startTime > endTime {
 		return nil, nil, errors.Wrapf(ErrParam, "create vesting account - start time is after end time error (%s > %s)", time.Unix(startTime, 0).UTC().String(), time.Unix(endTime, 0).UTC().String())
+	}
+	if startTime < 0 && endTime > math.MaxInt64+startTime {
+		return nil, nil, errors.Wrap(ErrParam, "create vesting account - vesting period (end time - start time) does not fit into int64")
 	}
 	fromAccAddress, err = sdk.AccAddressFromBech32(fromAddress)
 	if err != nil {
